@@ -56,7 +56,7 @@ class C14(Prop):
     id = "C14"
     level = "exploration"
     title = "A variable without a domain ranges over exactly the live registry of instances"
-    campaigns = {"quick": [("main", 20000, 60)], "thorough": [("main", 400000, 1500)]}
+    campaigns = {"quick": [("main", 60000, 60)], "thorough": [("main", 1500000, 1800)]}
     chunk = 100
     rule = ("per-run class forests (decorated roots, decorated and undecorated subclasses, dataclass and hand-written "
             "__init__, fields with and without defaults); histories of concrete construction (positional / keyword / "
